@@ -378,11 +378,15 @@ func (g *Graph) TaskDependsOn(t *Task, tDependencies ...*Task) {
 }
 
 // TaskRetries - Set a number of retries for a task.
+// A negative number of retries is taken as no retries.
 func (g *Graph) TaskRetries(t *Task, retries int) {
 	vertex, err := g.retrieveOrAddVertex(t)
 	if err != nil {
 		g.errs.Errors = append(g.errs.Errors, err)
 		return
+	}
+	if retries < 0 {
+		retries = 0
 	}
 	vertex.Retries = retries
 }
